@@ -341,7 +341,7 @@ def mon_c06(run, ftg3_out=None):
     return bad
 
 
-def mon_c07(run, world):
+def mon_c07(run, world, f42_out=None):
     """conditional branches in whole simulations: exactly one child of a completed conditional goes on, the others are
     cancelled up to the join; with resolution at submission the resolved branch is the one that runs"""
     bad = []
@@ -391,6 +391,19 @@ def mon_c07(run, world):
                 bad.append("conditional %s completed without releasing any of its runnable children %s" % (t, live))
             for x in canc:
                 state[x] = "CANCELLED"
+    # the branch that was taken goes on: in a run that ended BEFORE its loop timeout, the child a conditional released is
+    # not left waiting (RELEASED / SCHEDULED) although its graph was not cancelled by a policy
+    end_t = None
+    for e in log:
+        if e[0] == "handle" and e[2] == "SIMULATOR_END":
+            end_t = e[1]
+    if run["status"] == "ended" and end_t is not None and end_t < world["flags"].get("loop_timeout", 0):
+        for e in log:
+            if e[0] == "notify" and info.get(e[1], {}).get("conditional") and len(e[3]) == 1:
+                c = e[3][0]
+                if state.get(c) in ("RELEASED", "SCHEDULED", "VIRTUAL"):
+                    bad.append("conditional %s took %s, which is still %s at the end of a run that ended at %s, before its "
+                               "loop timeout" % (e[1], c, state.get(c), end_t))
     # nothing but untaken branches is cancelled when no policy cancels: a cancelled task has a cancelled (or conditional)
     # parent; a join (terminal task) is cancelled only when every parent that is not a conditional is — in particular a
     # join whose taken branch completed must not have been cancelled by the untaken one
@@ -409,8 +422,12 @@ def mon_c07(run, world):
             if ti["terminal"]:
                 alive = [p for p in plain if state.get(p) != "CANCELLED"]
                 if alive:
-                    bad.append("join %s is CANCELLED although its parent(s) %s are %s (no policy cancels in this run)"
-                               % (t, alive, [state.get(p) for p in alive]))
+                    msg = ("join %s is CANCELLED although its parent(s) %s are %s (no policy cancels in this run)"
+                           % (t, alive, [state.get(p) for p in alive]))
+                    if f42_out is not None and world.get("known_finding") == "F42":
+                        f42_out.append(msg)
+                    else:
+                        bad.append(msg)
             elif not any(state.get(p) == "CANCELLED" for p in ps) and not any(info[p]["conditional"] for p in ps):
                 bad.append("task %s is CANCELLED although none of its parents is cancelled or conditional and no policy "
                            "cancels in this run" % t)
